@@ -292,9 +292,13 @@ def score_profile_from_rankings(
                 local_score_vector = score_vector[
                     current_ind : current_ind + position_size
                 ]
-                allocation = sum(local_score_vector) / position_size
+                # exact rational average of the points this position spans
+                allocation = (
+                    sum((Fraction(x) for x in local_score_vector), Fraction(0))
+                    / position_size
+                )
                 for c in s:
-                    scores[c] += Fraction(allocation) * ballot.weight
+                    scores[c] += allocation * ballot.weight
                 current_ind += position_size
 
     if to_float:
